@@ -55,7 +55,32 @@ def cases(tier):
                         for wind in ("consistent", "alternate", "reversed", "every-third-shifted"):
                             out.append({"pts": S, "order": None, "pl": pq[(i + j) % 8], "variant": "merge", "frev": frev, "relabel": relabel, "wind": wind})
                             j += 1
+    # solids with facets of 5..8 vertices (a facet is cut into >= 3 coplanar triangles), triangle list in several orders
+    for n in (5, 6, 7, 8):
+        for kind in ("prism", "pyramid"):
+            for order in ("natural", "reversed", "stride3", "stride5", "interleave-halves"):
+                for wind in ("consistent", "alternate"):
+                    out.append({"solid": kind, "n": n, "order": None, "pl": pq[(n + len(order)) % 8], "variant": "merge", "frev": False, "relabel": False, "wind": wind, "tri_order": order, "pts": []})
     return out
+
+
+def solid_structure(kind, n):
+    """vertices (floats) and outward counter-clockwise faces of a right n-prism / n-pyramid, from the construction"""
+    import math as _m
+
+    ring = [(_m.cos(2 * _m.pi * i / n), _m.sin(2 * _m.pi * i / n)) for i in range(n)]
+    if kind == "prism":
+        P = [(x, y, 0.7) for x, y in ring] + [(x, y, -0.7) for x, y in ring]
+        faces = [list(range(n)), [n + i for i in range(n)][::-1]]
+        for i in range(n):
+            j = (i + 1) % n
+            faces.append([i, n + i, n + j, j])
+    else:
+        P = [(x, y, 0.0) for x, y in ring] + [(0.0, 0.0, 1.3)]
+        faces = [list(range(n))[::-1]]
+        for i in range(n):
+            faces.append([i, (i + 1) % n, n])
+    return P, faces
 
 
 def permute_face(f, perm, salt):
@@ -85,7 +110,11 @@ def run_case(case):
     from coxeter.shapes import ConvexPolyhedron, Polyhedron
 
     rep = Report()
-    P = [tuple(p) for p in case["pts"]]
+    if case.get("solid"):
+        P, sfaces = solid_structure(case["solid"], case["n"])
+    else:
+        sfaces = None
+        P = [tuple(p) for p in case["pts"]]
     if case["order"]:
         P = [P[i] for i in case["order"]]
     k = len(P)
@@ -96,9 +125,13 @@ def run_case(case):
         for i in range(k):
             newP[relabel[i]] = P[i]
         P = newP
-    facets = X.hull_facets(P)
-    ex_faces = [list(ext) for _, _, _, ext in facets]
-    ex_norm = {frozenset(ext): nr for nr, _, _, ext in facets}
+    if sfaces is not None:
+        ex_faces = [list(f) for f in sfaces]
+        ex_norm = {frozenset(f): X.vector_area2(P, f) for f in ex_faces}
+    else:
+        facets = X.hull_facets(P)
+        ex_faces = [list(ext) for _, _, _, ext in facets]
+        ex_norm = {frozenset(ext): nr for nr, _, _, ext in facets}
     base = np.array(P, float)
     pl = case["pl"]
     F = A.apply_placement(pl, base)
@@ -135,6 +168,19 @@ def run_case(case):
                 fs = [(t[1:] + t[:1])[::-1] if i % 3 == 0 else t[2:] + t[:2] for i, t in enumerate(fs)]
             if case["frev"]:
                 fs = fs[::-1]
+            to = case.get("tri_order")
+            if to == "reversed":
+                fs = fs[::-1]
+            elif to in ("stride3", "stride5"):
+                st = 3 if to == "stride3" else 5
+                m = len(fs)
+                while __import__("math").gcd(st, m) != 1:
+                    st += 1
+                fs = [fs[(i * st) % m] for i in range(m)]
+            elif to == "interleave-halves":
+                h = len(fs) // 2
+                a_, b_ = fs[:h], fs[h:]
+                fs = [x for pair in zip(b_, a_) for x in pair] + b_[len(a_):]
             obj = Polyhedron(F.copy(), [np.array(f) for f in fs])
             obj.merge_faces()
     except Exception as ex:
